@@ -27,7 +27,7 @@ theorem cif_roundtrip (env : Env) (lenv : LoadEnv) (a : Atoms) (useFract : Bool)
     (hsave : saveCif env a useFract = .ok b)
     (hlab : ∀ r ∈ a.atoms, endsWithDigit (elemOf a r) = false)
     (hextra : extraLabelsOk a = true)
-    (hq : ∀ r ∈ a.atoms, parseFloat (env.reprQ r.charge) = some r.charge)
+    (hq : ∀ r ∈ a.atoms, tofloat (env.reprQ r.charge) = some r.charge)
     (hmass : ∀ r ∈ a.atoms, (lenv.massOf (elemOf a r)).isSome = true)
     (hcell : ∀ c, a.cell = some c → (lenv.cellOf ((env.cellpar c).toList.map stripSu)).isSome = true) :
     loadCif lenv b = .ok (normCif env lenv a useFract) :=
@@ -98,6 +98,19 @@ theorem cif_roundtrip_coord (x : Rat) :
     fix4 x - x ≤ 1 / 20000 ∧ x - fix4 x ≤ 1 / 20000 ∧ parseFloat (fmt4 x) = some (fix4 x) := by
   refine ⟨fracPart_nonneg _, fracPart_lt_one _, ⟨_, fracPart_sub_int _⟩, (fix4_close x).1, (fix4_close x).2, ?_⟩
   simp [parseFloat, fmt4, String.toList_ofList, parse_fmt4]
+
+/-- **charge_su.**  The charges are read through the same `tofloat` as the coordinates: when the block has a charge
+    column, the charges of the structure read are the numbers of that column with every `(digits)` group removed
+    (`0.5(1)` ↦ 0.5).  Entries that are not numbers (`?`, `.`) make the read fail, as for coordinates. -/
+theorem charge_su (lenv : LoadEnv) (b : Block) (r : Atoms)
+    (hhas : b.has chargeTag = true) (h : loadCif lenv b = .ok r) :
+    ∃ cs, b.col? chargeTag = some cs ∧ allSome (cs.map tofloat) = some (r.atoms.map (·.charge)) :=
+  charge_su_aux lenv b r hhas h
+
+/-- a number followed by one standard-uncertainty group reads as the number, for coordinates and charges alike -/
+theorem tofloat_strips_su (pre d : List Char) (hp : '(' ∉ pre) (hne : d ≠ []) (hd : ∀ c ∈ d, c.isDigit = true) :
+    tofloat (String.ofList (pre ++ '(' :: (d ++ [')']))) = parseFloatL pre :=
+  tofloat_su pre d hp hne hd
 
 /-- **p1_reject_iff.**  `load_p1_cif` refuses a block as non-P1 exactly when the H-M item is present and its value is
     neither `P1` nor `P 1` (a looped item is refused as well: a list is never equal to a string). -/
@@ -172,7 +185,7 @@ def isOk {α} : Except Err α → Bool
 example : isOk (saveCif exEnv exAtoms true) = true ∧ isOk (saveCif exEnv exAtoms false) = true := by decide +kernel
 example : ∀ r ∈ exAtoms.atoms, endsWithDigit (elemOf exAtoms r) = false := by decide +kernel
 example : extraLabelsOk exAtoms = true := by decide +kernel
-example : ∀ r ∈ exAtoms.atoms, parseFloat (exEnv.reprQ r.charge) = some r.charge := by decide +kernel
+example : ∀ r ∈ exAtoms.atoms, tofloat (exEnv.reprQ r.charge) = some r.charge := by decide +kernel
 example : ∀ r ∈ exAtoms.atoms, (exLoad.massOf (elemOf exAtoms r)).isSome = true := by decide +kernel
 example : ∀ c, exAtoms.cell = some c → (exLoad.cellOf ((exEnv.cellpar c).toList.map stripSu)).isSome = true :=
   fun _ _ => rfl
@@ -191,6 +204,15 @@ example : loadCif exLoad [.item hmTag "F m -3 m"] = .error (.reject "non-P1") :=
 example : loadCif exLoad [.item hmTag "P1"] ≠ .error (.reject "non-P1")
     ∧ loadCif exLoad [.item hmTag "P 1"] ≠ .error (.reject "non-P1")
     ∧ loadCif exLoad [] ≠ .error (.reject "non-P1") := by decide +kernel
+/-- charges with standard uncertainties are read; `?` is not a number -/
+example : (loadCif { cellOf := fun _ => none, massOf := fun _ => some 12 }
+    [.loop ["_atom_site_label", "_atom_site_type_symbol", "_atom_site_cartn_x", "_atom_site_cartn_y", "_atom_site_cartn_z",
+            "_atom_site_charge"]
+       [["C1", "C", "1", "2", "3", "0.5(1)"], ["C2", "C", "4", "5", "6", "-1.25e-1(12)"]]]).toOption.map
+      (fun r => r.atoms.map (·.charge)) = some [1 / 2, -1 / 8] := by decide +kernel
+example : loadCif { cellOf := fun _ => none, massOf := fun _ => some 12 }
+    [.loop ["_atom_site_label", "_atom_site_type_symbol", "_atom_site_cartn_x", "_atom_site_cartn_y", "_atom_site_cartn_z",
+            "_atom_site_charge"] [["C1", "C", "1", "2", "3", "?"]]] = .error .domain := by decide +kernel
 /-- saving refuses impropers together with extra dihedral columns (PyCifRW: columns of different lengths) -/
 example : saveCif exEnv { exAtoms with dihedrals := ⟨[⟨[0, 1, 2, 3], 0, ["55.5"]⟩], [], ["_geom_torsion"]⟩ } true
     = .error (.reject "looplength") := by decide +kernel
@@ -248,7 +270,7 @@ theorem cif_save_idempotent (env : Env) (lenv : LoadEnv) (a a1 a2 : Atoms) (fr :
     (h5 : saveCif env a2 fr = .ok b3)
     (hlab : ∀ r ∈ a.atoms, endsWithDigit (elemOf a r) = false)
     (hextra : extraLabelsOk a = true)
-    (hq : ∀ r ∈ a.atoms, parseFloat (env.reprQ r.charge) = some r.charge)
+    (hq : ∀ r ∈ a.atoms, tofloat (env.reprQ r.charge) = some r.charge)
     (hmass : ∀ r ∈ a.atoms, (lenv.massOf (elemOf a r)).isSome = true)
     (hcell : ∀ c, a.cell = some c → (lenv.cellOf ((env.cellpar c).toList.map stripSu)).isSome = true)
     (hstable : ∀ c c', a.cell = some c → lenv.cellOf ((env.cellpar c).toList.map stripSu) = some c' →
